@@ -96,6 +96,21 @@ CLAIMED.update({
         note="Trusted: TLC; the cache is conforming; PDU consumption is observed through the client's per-type counters."),
 })
 
+CLAIMED.update({
+    "C01": dict(
+        category="model_checking", design_ref="DESIGN.md 5 (C01)",
+        technique="TLA+ spec Export.tla (RIB with id re-use -> FIFO channel -> Deliver -> pending maps -> Flush -> neighbour's "
+                  "Adj-RIB-In, route refresh) exhausted by TLC + model behaviours replayed on the real export pipeline over a "
+                  "loopback socket, ending with a comparison against a brand-new session",
+        text="TLC explores every interleaving of RIB changes with delivery, flushing and refresh for small constants and proves "
+             "convergence to the fresh dump for the sound design (and exhibits the violation for each listed known deviation); "
+             "behaviours of the as-implemented model are executed on the real TableManager / PeerSession (on_established, "
+             "handle_prefix_update, flush_tx, do_route_refresh), the decoded Adj-RIB-In compared after every step, then the "
+             "session is drained and compared with a brand-new session on the same RIB.",
+        note="Trusted: TLC; the decoder used for the mirror (the repository's own PeerCodec); ranking reduced to router-id order; "
+             "export policy empty; conformance is sampled (random walks), the design check exhaustive within the constants."),
+})
+
 NOT_YET = {}
 
 HOOK_COMMITS = []
